@@ -34,7 +34,7 @@ META = {
                      "reference require in Lua (vlib/c05_gen.py)", "harness/crates/c05 + astdump",
                      "darklua's parser (reading entry, modules, written bundle)"],
     "allowed_axioms": [],
-    "rule": "120 (thorough 1000) seeded acyclic module graphs of 2-7 files (Lua modules returning tables/functions/strings/numbers/booleans, "
+    "rule": "100 (thorough 1000) seeded acyclic module graphs of 2-7 files (Lua modules returning tables/functions/strings/numbers/booleans, "
             "json/json5/yaml/toml/txt data files) with shared and diamond dependencies, several relative spellings of a "
             "file, requires in 18 syntactic positions, identically named locals, excludes, skipped call forms, x require "
             "mode {path, luau} x generator {readable, dense, retain_lines} x optional rule pipeline; the same relative "
@@ -713,7 +713,7 @@ def run(ctx):
     quick = ctx.tier == "quick"
 
     widths = (140,) if quick else (140, max(G.modules_needed_to_reach(w) for w in ("do", "if", "in", "or")) + 15)
-    bad1, projects, meta, results = behaviour_stream(ctx, rnd, 120 if quick else 1000, proofs_ok, widths)
+    bad1, projects, meta, results = behaviour_stream(ctx, rnd, 100 if quick else 1000, proofs_ok, widths)
     bad2, sprojects, sresults = small_graph_stream(ctx, rnd, [2, 3] if quick else [2, 3, 4], None)
     bad3, dprojects, dresults = defect_stream(ctx, rnd)
     bad4, nprojects, nresults = samename_stream(ctx, rnd)
